@@ -164,7 +164,7 @@ class ReachingDefs:
                 ds = rd.defs_at(n.id, self.at)
                 if len(ds) == 1:
                     d = next(iter(ds))
-                    if d.kind == "assign" and d.node is not self.at and self.depth > 0:
+                    if d.kind in ("assign", "walrus") and d.node is not self.at and self.depth > 0:
                         t = T(d.node, self.depth - 1)
                         return t.visit(ast_copy(d.value))
                     if rename:
